@@ -1143,6 +1143,8 @@ class Run:
                 return FuncRef(full)
             if base.name in ("sys",) and attr == "maxsize":
                 return mk_int(2**63 - 1)
+            if base.name == "sys.float_info" and attr == "epsilon":
+                return SV(T.REAL, z3.RealVal("1/4503599627370496"))  # 2**-52
             try:
                 mod, path = split_qname(full)
                 if not path:
@@ -1405,6 +1407,13 @@ class Run:
                 fr.env[pname] = x
 
             return self.comprehend(seq, bind, lambda: self.ev(f.node.body))
+        if name == "sum":
+            (v,) = args[:1]
+            if isinstance(v, SV) and isinstance(v.ty, T.List) and v.ty.elem in (T.INT, T.REAL):
+                # an uninterpreted function of the list contents (only functionality is modelled)
+                f = z3.Function("sum_" + str(T.sort(v.ty.elem)), z3.ArraySort(H.I, T.sort(v.ty.elem)), H.I, T.sort(v.ty.elem))
+                return SV(v.ty.elem, f(self.heap.l_elems(v.ty, v.z), self.heap.c_len(v.ty, v.z)))
+            raise Reject("sum over %r" % (v,))
         if name in ("any", "all"):
             (v,) = args
             if isinstance(v, PyTuple):
